@@ -112,7 +112,7 @@ def plan(tier, seed):
                     cases.append(_base('table', nxt(), io=[a, b], sc=[sc, sc], mitm=mitm,
                                        ikd=[7, 7], rkd=[7, 7]))
     # (2) sampled product
-    nmix = 1200 if tier == 'quick' else 30000
+    nmix = 4000 if tier == 'quick' else 30000
     rng = random.Random(S ^ 0xC13)
     neg_kinds = ['ok', 'ok', 'ok', 'ok', 'wrong', 'none', 'compare-no', 'confirm-no', 'accept-no']
     for i in range(nmix):
